@@ -233,8 +233,13 @@ func vrtRun(t *testing.T, vecJSON, paramsJSON, schedJSON string, entry func()) {
 	}
 }
 
-// vmCtxExpire is a no-op natively (the harness store returns the deadline error itself).
-func vmCtxExpire(ctx context.Context) {}
+// vmCtxExpire: natively the deadline is real - wait until it has passed (contexts without a deadline: no-op,
+// as in the model).
+func vmCtxExpire(ctx context.Context) {
+	if _, ok := ctx.Deadline(); ok {
+		<-ctx.Done()
+	}
+}
 
 // ---- schedule-forcing runtime for concurrent counterexamples (DESIGN A.7).
 // The instrumented replay build calls vsBefore()/vsAfter() around every
